@@ -5,14 +5,14 @@ schedules, kill points and injected failures (sbatch, squeue, lock, every write 
 Coq monitors; Python oracles judge impl's trace and final state directly (harness/syscheck.py)."""
 from harness import core, syscheck
 
-MODES = {'kill': 5, 'write': 4, 'squeuefail': 3, 'sbatchfail': 1, 'timeout': 1, 'appendtimeout': 1}
+MODES = {'kill': 5, 'write': 4, 'squeuefail': 3, 'sbatchfail': 1, 'timeout': 1, 'appendtimeout': 1, 'interrupt': 3}
 
 
 def run(chk):
     ok = core.standard_proof_phase(chk, "C11", gen_needed=())
     chk.notes["system_theorems"] = ['c11_no_double_submission', 'c11_order', 'c11_rows_kept', 'c11_refuse_when_wedged', 'c11_kill_of_lock_owner_wedges', 'c11_error_exit_with_lock_wedges', 'c11_single_round', 'c11_squeue_transient', 'c11_round_order_of_the_source', 'c11_round_order_enforced']
     chk.notes["partial"] = "a kill inside a Python-level write (torn file) is modelled at the granularity of _serialize_file's steps, not bytes; atomicity of O_EXCL/rename is assumed (A-FS)"
-    syscheck.system_phase(chk, "C11", MODES, n_quick=200, n_thorough=4000, also=('C01', 'C02', 'C08', 'C10'), directed=("write_fails_after_first_sbatch", "collect_append_fails"))
+    syscheck.system_phase(chk, "C11", MODES, n_quick=230, n_thorough=4000, also=('C01', 'C02', 'C08', 'C10'), directed=("write_fails_after_first_sbatch", "collect_append_fails"))
 
 
 def replay(path):
